@@ -25,12 +25,16 @@ func (slowListener) AddSample(v float64, tags ...string) {
 		runtime.Gosched()
 	}
 }
-func (slowRegistry) RegisterDistribution(string, ...string) core.MetricSampleListener { return slowListener{} }
-func (slowRegistry) RegisterTiming(string, ...string) core.MetricSampleListener       { return slowListener{} }
-func (slowRegistry) RegisterCount(string, ...string) core.MetricSampleListener        { return slowListener{} }
-func (slowRegistry) RegisterGauge(string, core.MetricSupplier, ...string)             {}
-func (slowRegistry) Start()                                                           {}
-func (slowRegistry) Stop()                                                            {}
+func (slowRegistry) RegisterDistribution(string, ...string) core.MetricSampleListener {
+	return slowListener{}
+}
+func (slowRegistry) RegisterTiming(string, ...string) core.MetricSampleListener {
+	return slowListener{}
+}
+func (slowRegistry) RegisterCount(string, ...string) core.MetricSampleListener { return slowListener{} }
+func (slowRegistry) RegisterGauge(string, core.MetricSupplier, ...string)      {}
+func (slowRegistry) Start()                                                    {}
+func (slowRegistry) Stop()                                                     {}
 
 type concKind struct {
 	name string
